@@ -20,12 +20,15 @@ class Tracker(Monitor):
         self.ever_started = set()  # namespecs that have truly been started somewhere
         self.requests = []         # start requests
         self.stops = []            # stop requests
+        self.open_starts = []      # unresolved ones
+        self.open_stops = []
         self.sender_state = {}     # (nick, inc) -> fsm state name
         self.visit = {}            # (nick, inc) -> counter incremented on every state change
         self.forced = []           # forced states published
         self.listeners_start = []  # callbacks(request) at emission, before the request is recorded
         self.listeners_stop = []
         self.listeners_forced = []
+        self.listeners_resolved = []
         self.dispatch = 0
         w.listeners.append(self.on_event)
         w.on_hook('send_start_process', self.on_start)
@@ -50,7 +53,7 @@ class Tracker(Monitor):
             self.visit[key] = self.visit.get(key, 0) + 1
             if state in ('OFF', 'SYNCHRONIZATION', 'ELECTION', 'RESTARTING', 'SHUTTING_DOWN', 'FINAL'):
                 # entering these states aborts every job of the instance
-                for req in self.requests + self.stops:
+                for req in self.open_starts + self.open_stops:
                     if req['sender'] == inst.nick and req['inc'] == inst.inc and not req['resolved']:
                         self.resolve(req, 'sender-aborted')
 
@@ -70,7 +73,7 @@ class Tracker(Monitor):
 
     def on_instance_state(self, inst, identifier, new_state):
         if new_state.name in ('FAILED', 'STOPPED', 'ISOLATED'):
-            for req in self.requests + self.stops:
+            for req in self.open_starts + self.open_stops:
                 if req['sender'] == inst.nick and req['inc'] == inst.inc and req['target'] == identifier \
                         and not req['resolved']:
                     self.resolve(req, 'target-lost')
@@ -86,6 +89,7 @@ class Tracker(Monitor):
         for cb in self.listeners_start:
             cb(inst, req)
         self.requests.append(req)
+        self.open_starts.append(req)
         self.count('start_requests')
 
     def on_stop(self, inst, identifier, namespec):
@@ -97,6 +101,7 @@ class Tracker(Monitor):
         for cb in self.listeners_stop:
             cb(inst, req)
         self.stops.append(req)
+        self.open_stops.append(req)
         self.count('stop_requests')
 
     def on_forced(self, inst, process, identifier, event_time, forced_state, reason):
@@ -108,7 +113,7 @@ class Tracker(Monitor):
             cb(inst, rec)
         self.forced.append(rec)
         self.count('forced_states')
-        for req in self.requests + self.stops:
+        for req in self.open_starts + self.open_stops:
             if req['sender'] == inst.nick and req['inc'] == inst.inc and req['namespec'] == process.namespec \
                     and not req['resolved'] and (not identifier or req['target'] == identifier):
                 self.resolve(req, 'given-up')
@@ -116,9 +121,14 @@ class Tracker(Monitor):
     def resolve(self, req, how):
         req['resolved'] = how
         req['resolved_t'] = self.w.now
+        pool = self.open_starts if req['kind'] == 'start' else self.open_stops
+        if req in pool:
+            pool.remove(req)
+        for cb in self.listeners_resolved:
+            cb(req, how)
 
     def outstanding(self, sender, inc, kind='start'):
-        pool = self.requests if kind == 'start' else self.stops
+        pool = self.open_starts if kind == 'start' else self.open_stops
         return [r for r in pool if r['sender'] == sender and r['inc'] == inc and not r['resolved']]
 
     # -- truth / transport events -------------------------------------------------------------------
@@ -131,7 +141,7 @@ class Tracker(Monitor):
             if state in RUN_CODES:
                 self.ever_started.add(ev['namespec'])
             run = self.run
-            for req in self.requests:
+            for req in list(self.open_starts):
                 if req['resolved'] or req['target_nick'] != ev['inst'] or req['namespec'] != ev['namespec']:
                     continue
                 if state == ProcessStates.STARTING:
@@ -148,7 +158,7 @@ class Tracker(Monitor):
                                ProcessStates.STOPPING):
                     if req['started'] or req['delivered']:
                         self.resolve(req, 'failed')
-            for req in self.stops:
+            for req in list(self.open_stops):
                 if req['resolved'] or req['target_nick'] != ev['inst'] or req['namespec'] != ev['namespec']:
                     continue
                 if state in STOPPED_STATES:
@@ -156,9 +166,9 @@ class Tracker(Monitor):
         elif kind in ('rpc_call', 'rpc_ret', 'rpc_fault', 'rpc_fail', 'rpc_drop'):
             method = ev['method']
             if method == 'supvisors.start_args' or method == 'supervisor.stopProcess':
-                pool = self.requests if method == 'supvisors.start_args' else self.stops
+                pool = self.open_starts if method == 'supvisors.start_args' else self.open_stops
                 namespec = ev['args'][0]
-                for req in pool:
+                for req in list(pool):
                     if req['sender'] == ev['src'] and req['target_nick'] == ev['dst'] and \
                             req['namespec'] == namespec and req.get('rpc_id') in (None, ev['id']) and \
                             (kind == 'rpc_call') == (req.get('rpc_id') is None):
@@ -175,7 +185,7 @@ class Tracker(Monitor):
                                 req['delivered'] = None if kind == 'rpc_drop' else kind
                         break
         elif kind == 'crash':
-            for req in self.requests + self.stops:
+            for req in self.open_starts + self.open_stops:
                 if req['target_nick'] == ev['inst'] and not req['resolved']:
                     # the sender does not know yet; it is resolved when the sender invalidates the target
                     req['target_crashed'] = True
@@ -205,7 +215,18 @@ class StartSequenceMonitor(Monitor):
         Monitor.attach(self, run)
         self.tracker.listeners_start.append(self.on_start)
         self.tracker.listeners_forced.append(self.on_forced)
+        self.tracker.listeners_resolved.append(self.on_resolved)
         run.world.listeners.append(self.on_event)
+
+    def on_resolved(self, req, how):
+        # the host of a starting process is lost: the start is given up, which is a failure of the process
+        if req['kind'] == 'start' and how == 'target-lost':
+            self.count('starts_given_up_on_host_loss')
+            self.note_failure(req['sender'], req['inc'], req['epoch'], req['namespec'], self.run.world.steps)
+        elif req['kind'] == 'start' and how in ('failed', 'exited-unexpected'):
+            # the requester learns it when the event is delivered; no request of the same application can be
+            # emitted in between (the failed command is still in its current jobs)
+            self.note_failure(req['sender'], req['inc'], req['epoch'], req['namespec'], -1)
 
     def seqs(self, namespec):
         app, prog = self.run.prog_of(namespec)
@@ -301,15 +322,7 @@ class StartSequenceMonitor(Monitor):
             self.note_failure(inst.nick, inst.inc, rec['epoch'], rec['namespec'], self.run.world.steps)
 
     def on_event(self, ev):
-        # a request resolved as a failure in truth: the sender learns it when the event is delivered; no request
-        # of the same application can be emitted in between (the failed command is still in its current jobs)
-        if ev['k'] == 'truth':
-            tr = self.tracker
-            for req in tr.requests:
-                if req.get('resolved') in ('failed', 'exited-unexpected') and not req.get('failure_noted') and \
-                        req['resolved_t'] == ev['t'] and req['namespec'] == ev['namespec']:
-                    req['failure_noted'] = True
-                    self.note_failure(req['sender'], req['inc'], req['epoch'], req['namespec'], -1)
+        pass
 
     def finish(self, run):
         self.nontrivial = self.counters.get('process_order_checks', 0) >= 2 and len(self.plans) >= 1
